@@ -34,6 +34,7 @@ type InclusiveRangeIterator struct {
 	stepNegative bool
 	step         IntegerValue
 	end          IntegerValue
+	zero         IntegerValue
 }
 
 var _ ValueIterator = &InclusiveRangeIterator{}
@@ -61,6 +62,7 @@ func NewInclusiveRangeIterator(
 		stepNegative: bool(stepNegative),
 		step:         stepValue,
 		end:          endValue,
+		zero:         zeroValue,
 	}
 	i.next = i.validate(startValue, context)
 
@@ -74,6 +76,26 @@ func (i *InclusiveRangeIterator) Next(context ValueIteratorContext) Value {
 	}
 
 	// Update the next value.
+	// Only add the step if the sum is known to be representable in the element type,
+	// as the sum would otherwise overflow (or wrap around, for Word types)
+	// when the last element is less than one step away from the bounds of the type.
+	if bool(valueToReturn.Less(context, i.zero)) == i.stepNegative {
+		// The current value and the step have the same sign, and so has the end value,
+		// as it lies in the direction of the step. Their difference cannot overflow.
+		remaining, ok := i.end.Minus(context, valueToReturn).(IntegerValue)
+		if !ok {
+			panic(errors.NewUnreachableError())
+		}
+
+		// There is no next value if less than one step remains.
+		if (i.stepNegative && bool(remaining.Greater(context, i.step))) ||
+			(!i.stepNegative && bool(remaining.Less(context, i.step))) {
+
+			i.next = nil
+			return valueToReturn
+		}
+	}
+
 	nextValueToReturn, ok := valueToReturn.Plus(context, i.step).(IntegerValue)
 	if !ok {
 		panic(errors.NewUnreachableError())
